@@ -24,13 +24,19 @@ control (fall through / which jump), or the error kind, or a VM fault.
 * `C05_labels_preserved`: a pass and the fixpoint keep the label sequence; windows contain no labels.
 * `C05_pass_segments`: the pass output is the concatenation of per-window replacements (each
   window label-free, replaced by a sound replacement or copied) — the structural half of the lift.
+* `C05_pass_sound_block`: a pass (and `C05_chain_sound_block`: the fixpoint) is sound on every label-free
+  block entered at its start: same final state and exit (fall through / which jump) or same error.
+* `C05_pass_label_split` / `C05_optimize_label_split`: the code before and after a label is optimized
+  independently and the label stays between the two images (no jump lands inside a window).
 * `C05_optimize_sound_partial`: the claim made for the whole optimizer = all of the above.
-  -- OPEN: `C05_optimize_sound` (stuttering simulation between a whole program and its optimized image,
-  -- through calls/returns and label resolution).  Reason: needs the M4 VM model of call frames and
-  -- code addresses (`Call`, `Return`, `PushAddr`, `SpawnTask` are opaque `other` instructions here);
-  -- not finished in the time available.  What is proved instead is every ingredient that does not
-  -- depend on code addresses; the remaining step is exercised on every run by the optimizer-on/off
-  -- oracle of the harness.
+  -- OPEN: `C05_optimize_sound` (stuttering simulation between a whole program and its optimized image:
+  -- trace equivalence through jumps to labels, calls and returns).  Reason: needs the M4 VM model of
+  -- call frames and code addresses (`Call`, `Return`, `PushAddr`, `SpawnTask` are opaque `other`
+  -- instructions here) and the composition of the block theorem over an unbounded execution; not
+  -- finished in the time available.  Proved instead: every ingredient that does not depend on code
+  -- addresses — each window rewrite is outcome-preserving, a pass is outcome-preserving on every
+  -- label-free block entered at its start, labels are kept and delimit independently optimized blocks.
+  -- The remaining composition step is exercised on every run by the optimizer-on/off oracle.
 -/
 namespace Abra.Opt
 open Abra.Asm
@@ -629,6 +635,176 @@ theorem C05_optimize_sound_partial (P : Prims H) (env : FoldEnv) (hag : EnvAgree
       (∀ i1 i2, w = [i1, i2] → WinOk s i1 i2) → run P w s = run P out s) :=
   ⟨optimizeLoop_chain env _ ls r h, C05_labels_preserved env ls r h,
    fun w out hf s hok => C05_fires_sound P env hag hrt w out hf s hok⟩
+
+/-! ## semantic soundness of a pass on a block -/
+
+/-- the instructions of a line list -/
+def codeOf : List Line → List Instr
+  | [] => []
+  | .label _ :: r => codeOf r
+  | .instr i _ :: r => i :: codeOf r
+
+theorem codeOf_linesOf_append (w : List (Instr × Ann)) (ls : List Line) :
+    codeOf (linesOf w ++ ls) = w.map (·.1) ++ codeOf ls := by
+  induction w with
+  | nil => rfl
+  | cons p w ih => simpa [linesOf, codeOf] using ih
+
+theorem codeOf_out_append (out : List Instr) (a : Ann) (ls : List Line) :
+    codeOf (out.map (fun i => Line.instr i a) ++ ls) = out ++ codeOf ls := by
+  induction out with
+  | nil => rfl
+  | cons i out ih => simpa [codeOf] using ih
+
+/-- the two side conditions hold at every adjacent instruction pair that execution of the ORIGINAL code
+    reaches from `s` (a statement about the original program only; it does not mention the optimizer) -/
+def SegOk (P : Prims H) (code : List Instr) (s : St H) : Prop :=
+  ∀ (pre : List Instr) (i1 i2 : Instr) (post : List Instr) (s1 : St H),
+    code = pre ++ i1 :: i2 :: post → run P pre s = .ok (s1, .next) → WinOk s1 i1 i2
+
+theorem SegOk_tail (P : Prims H) (xs ys : List Instr) (s s1 : St H) (h : SegOk P (xs ++ ys) s)
+    (hr : run P xs s = .ok (s1, .next)) : SegOk P ys s1 := by
+  intro pre i1 i2 post s2 hsplit hrun
+  apply h (xs ++ pre) i1 i2 post s2
+  · rw [hsplit]; simp
+  · rw [run_append, hr]; simpa using hrun
+
+/-- **A pass is sound on every label-free block.**  For any line list without labels (a basic block, or
+    any longer stretch between two labels, including opaque instructions such as calls treated as state
+    transformers), entered at its first instruction in ANY state in which the original code meets the two
+    side conditions where it reaches them: the optimized block and the original block have the same
+    outcome — same final stack, base and heap and same exit (fall off the end, or the same jump), or the
+    same runtime error, or a fault. -/
+theorem C05_pass_sound_block (P : Prims H) (env : FoldEnv) (hag : EnvAgrees P env) (hrt : RoundTrip P)
+    (ls r : List Line) (hrel : PassRel env ls r) (hlf : labelsOf ls = []) :
+    ∀ (s : St H), SegOk P (codeOf ls) s → run P (codeOf r) s = run P (codeOf ls) s := by
+  induction hrel with
+  | nil => intro s _; rfl
+  | keep l ls r _ ih =>
+    intro s hok
+    cases l with
+    | label l => simp [labelsOf] at hlf
+    | instr i a =>
+      have hlf' : labelsOf ls = [] := by simpa [labelsOf] using hlf
+      simp only [codeOf, run_cons]
+      cases he : exec P i s with
+      | ok x =>
+        obtain ⟨s1, c⟩ := x
+        cases c with
+        | next =>
+          simp only [Res.bind_ok]
+          apply ih hlf' s1
+          have : run P [i] s = .ok (s1, .next) := by rw [run_single]; exact he
+          exact SegOk_tail P [i] (codeOf ls) s s1 (by simpa [codeOf] using hok) this
+        | jump l => simp
+      | err k => simp
+      | fault => simp
+  | rewrite w out a ls r hf ha _ ih =>
+    intro s hok
+    have hlf' : labelsOf ls = [] := by rw [labelsOf_linesOf_append] at hlf; exact hlf
+    rw [codeOf_linesOf_append] at hok ⊢
+    rw [codeOf_out_append]
+    have hw : run P (w.map (·.1)) s = run P out s := by
+      apply C05_fires_sound P env hag hrt _ _ hf s
+      intro i1 i2 hw2
+      apply hok [] i1 i2 (codeOf ls) s
+      · rw [hw2]; rfl
+      · rfl
+    rw [run_append, run_append, hw]
+    cases hr : run P out s with
+    | ok x =>
+      obtain ⟨s1, c⟩ := x
+      cases c with
+      | next =>
+        simp only [Res.bind_ok]
+        apply ih hlf' s1
+        exact SegOk_tail P (w.map (·.1)) (codeOf ls) s s1 hok (by rw [hw]; exact hr)
+      | jump l => simp
+    | err k => simp
+    | fault => simp
+
+/-- the fixpoint on a label-free block, under the side conditions for every intermediate program -/
+theorem C05_chain_sound_block (P : Prims H) (env : FoldEnv) (hag : EnvAgrees P env) (hrt : RoundTrip P)
+    (ls r : List Line) (hch : PassChain env ls r) (hlf : labelsOf ls = []) (s : St H)
+    (hok : ∀ mid, PassChain env ls mid → SegOk P (codeOf mid) s) :
+    run P (codeOf r) s = run P (codeOf ls) s := by
+  induction hch with
+  | refl => rfl
+  | step a b c hab hbc ih =>
+    have hb : labelsOf b = [] := by rw [labelsOf_passRel env a b hab]; exact hlf
+    rw [ih hb (fun mid hm => hok mid (.step a b mid hab hm))]
+    exact C05_pass_sound_block P env hag hrt a b hab hlf s (hok a (.refl a))
+
+/-! ## labels delimit independently optimized blocks -/
+
+theorem linesOf_prefix (w : List (Instr × Ann)) : ∀ (ls a b : List Line) (l : String),
+    linesOf w ++ ls = a ++ Line.label l :: b →
+    ∃ a3, a = linesOf w ++ a3 ∧ ls = a3 ++ Line.label l :: b := by
+  induction w with
+  | nil => intro ls a b l h; exact ⟨a, rfl, by simpa [linesOf] using h⟩
+  | cons p w ih =>
+    intro ls a b l h
+    cases a with
+    | nil => simp [linesOf] at h
+    | cons y a2 =>
+      simp only [linesOf, List.map_cons, List.cons_append, List.cons.injEq] at h
+      obtain ⟨hy, hrest⟩ := h
+      obtain ⟨a3, h1, h2⟩ := ih ls a2 b l hrest
+      exact ⟨a3, by rw [h1, ← hy]; rfl, h2⟩
+
+theorem passRel_label_split (env : FoldEnv) (l : String) (b : List Line) :
+    ∀ (ls r : List Line), PassRel env ls r → ∀ (a : List Line), ls = a ++ Line.label l :: b →
+    ∃ a' b', r = a' ++ Line.label l :: b' ∧ PassRel env a a' ∧ PassRel env b b' := by
+  intro ls r hrel
+  induction hrel with
+  | nil => intro a h; cases a <;> simp at h
+  | keep x ls r hrel ih =>
+    intro a h
+    cases a with
+    | nil =>
+      simp only [List.nil_append, List.cons.injEq] at h
+      obtain ⟨hx, hls⟩ := h
+      subst hx hls
+      exact ⟨[], r, rfl, .nil, hrel⟩
+    | cons y a2 =>
+      simp only [List.cons_append, List.cons.injEq] at h
+      obtain ⟨hx, hls⟩ := h
+      obtain ⟨a', b', hr, ha, hb⟩ := ih a2 hls
+      exact ⟨x :: a', b', by rw [hr]; rfl, by rw [← hx]; exact .keep x a2 a' ha, hb⟩
+  | rewrite w out an ls r hf ha hrel ih =>
+    intro a h
+    obtain ⟨a3, h1, h2⟩ := linesOf_prefix w ls a b l h
+    obtain ⟨a', b', hr, hra, hrb⟩ := ih a3 h2
+    refine ⟨out.map (fun i => Line.instr i an) ++ a', b', ?_, ?_, hrb⟩
+    · rw [hr]; simp
+    · rw [h1]; exact .rewrite w out an a3 a' hf ha hra
+
+/-- **Blocks.** A pass treats the code before and after a label independently and leaves the label
+    between the two results: `pass (a ++ [l:] ++ b) = pass-image(a) ++ [l:] ++ pass-image(b)`.  With
+    `C05_pass_sound_block` this says: for every label, the optimized code following it (up to the next
+    label) is equivalent to the original code following it — no jump can land inside a rewritten window. -/
+theorem C05_pass_label_split (env : FoldEnv) (a b r : List Line) (l : String)
+    (h : pass env (a ++ Line.label l :: b) = .ok r) :
+    ∃ a' b', r = a' ++ Line.label l :: b' ∧ PassRel env a a' ∧ PassRel env b b' :=
+  passRel_label_split env l b _ r (C05_pass_segments env _ r h) a rfl
+
+theorem chain_label_split (env : FoldEnv) (l : String) :
+    ∀ (ls r : List Line), PassChain env ls r → ∀ (a b : List Line), ls = a ++ Line.label l :: b →
+    ∃ a' b', r = a' ++ Line.label l :: b' ∧ PassChain env a a' ∧ PassChain env b b' := by
+  intro ls r hch
+  induction hch with
+  | refl ls => intro a b h; exact ⟨a, b, h, .refl a, .refl b⟩
+  | step x y z hxy _ ih =>
+    intro a b h
+    obtain ⟨a1, b1, hy, ha1, hb1⟩ := passRel_label_split env l b x y hxy a h
+    obtain ⟨a', b', hz, ha', hb'⟩ := ih a1 b1 hy
+    exact ⟨a', b', hz, .step a a1 a' ha1 ha', .step b b1 b' hb1 hb'⟩
+
+/-- the same for the fixpoint -/
+theorem C05_optimize_label_split (env : FoldEnv) (a b r : List Line) (l : String)
+    (h : optimize env (a ++ Line.label l :: b) = .ok r) :
+    ∃ a' b', r = a' ++ Line.label l :: b' ∧ PassChain env a a' ∧ PassChain env b b' :=
+  chain_label_split env l _ r (optimizeLoop_chain env _ _ r h) a b rfl
 
 /-! Non-vacuity: a concrete environment agreeing with concrete primitives, and a program on which the
     optimizer fires rules of all three window sizes. -/
